@@ -53,7 +53,7 @@ fn inject(rec: &mut Rec, map: &Mutex<HashMap<Vec<u8>, Triple>>, what: &str, val:
 }
 
 /// observe one triple with `clients` independent clients
-fn observe(rec: &mut Rec, g: &Global, tr: &Triple, clients: usize, rng: &mut ChaCha20Rng, deal: bool) {
+fn observe(rec: &mut Rec, g: &Global, tr: &Triple, clients: usize, rng: &mut ChaCha20Rng, deal: bool, threaded: bool) {
   rec.evals += 1;
   let (m, e, t) = (&tr.0, &tr.1, tr.2);
   let mut rnds: Vec<[u8; 32]> = Vec::new();
@@ -140,7 +140,7 @@ fn observe(rec: &mut Rec, g: &Global, tr: &Triple, clients: usize, rng: &mut Cha
   }
   // independent clients are independent threads / processes in practice: the same
   // triple shared concurrently on three fresh threads must still give distinct points
-  if t <= 8 && clients >= 3 {
+  if threaded && t <= 8 && clients >= 3 {
     let hs: Vec<_> = (0..3)
       .map(|_| {
         let (m, e) = (m.clone(), e.clone());
@@ -343,7 +343,7 @@ fn family(rec: &mut Rec, _ctx: &Ctx, idx: u64, rng: &mut ChaCha20Rng, g: &Global
     let deal = tr.2 >= 1 && tr.2 <= 1024 && (tr.2 <= 8 || idx % 40 == 2);
     let clients = if deal { (tr.2 as usize + 1).max(2).min(if tr.2 > 8 { tr.2 as usize + 1 } else { 9 }) } else { 2 };
     rec.case(&(tr.0.clone(), tr.1.clone(), tr.2));
-    observe(rec, g, tr, clients, rng, deal);
+    observe(rec, g, tr, clients, rng, deal, idx % 5 == 0);
   }
   if idx < 8 {
     rec.sample(json!({"family": idx % 8, "triples": trs.iter().take(5).map(tj).collect::<Vec<_>>() }));
